@@ -872,7 +872,7 @@ def run_history(ctx, zf, started):
     steps = [st for w in walks for st in w['walk']]
     seen = {(st['e']['op'], st['e']['via']) for st in steps if int(st['e']['n']) > 0}
     need = {('mode', 'call'), ('mode', 'file'), ('bounds', 'call'), ('bounds', 'file'), ('other', 'call'), ('prior', 'object'), ('prior', 'text'),
-            ('prior', 'file')}
+            ('prior', 'file'), ('again', 'call')}
     spells = {(st['settings']['mode'], spelling_class(st['e']['text'])) for st in steps if st['e']['op'] == 'mode' and int(st['e']['n']) > 0 and not st['settings']['given']}
     conts = {st['e']['ct'] for st in steps if st['e']['op'] == 'bounds' and st['e']['via'] == 'call'}
     if not need <= seen or len(spells) < 6 or conts != set(walks[0]['conts']) or {int(st['e']['n']) for st in steps} != {0, 1, 2} \
@@ -1246,7 +1246,8 @@ def run(ctx):
     verify_ladder_table(['MC_Priors_%s.cfg' % ctx.tier, 'MC_Priors_asgiven.cfg', 'EX_Priors.cfg' if q else 'EX_Priors_thorough.cfg',
                          'Trace_Priors.cfg', 'MC_PriorDelivery_%s.cfg' % ctx.tier, 'MC_PriorDelivery_bymode.cfg',
                          'MC_PriorDelivery_secondblind.cfg', 'MC_Priors_inplace.cfg', 'MC_PriorHistory_%s.cfg' % ctx.tier,
-                         'SIM_PriorHistory.cfg' if q else 'SIM_PriorHistory_thorough.cfg'])
+                         'SIM_PriorHistory.cfg' if q else 'SIM_PriorHistory_thorough.cfg', 'MC_PriorHistory_cached.cfg',
+                         'MC_PriorHistory_astyped.cfg', 'MC_PriorHistory_inplace.cfg'])
     zf = z_file()
     started = None
     try:
